@@ -65,12 +65,12 @@ def first_note(notes, line, kind):
 
 
 # ------------------------------------------------------------------------------------- send pipeline
-def gen_vectors(ck, codes, seeds, wcs, rot):
+def gen_vectors(ck, codes, seeds, wcs, rot, nrot=2):
     pp = os.path.join(ck.work, "params_%d.ndjson" % rot)
     # the account-state entry points get the full grid in both tiers; the caller-supplied seqnos of RawSend(V2) are thinned
     # and their poll scripts bounded by 4 in the quick tier
     rawseqs = ["0", "1", "7", "4294967295"] if ck.thorough else ["7", "4294967295"]
-    vlib.write_ndjson(pp, [{"seeds": seeds, "wcs": wcs, "maxpolls": 6, "rawmaxpolls": 6 if ck.thorough else 4, "rawseqs": rawseqs,
+    vlib.write_ndjson(pp, [{"seeds": seeds, "nrot": nrot, "wcs": wcs, "maxpolls": 6, "rawmaxpolls": 6 if ck.thorough else 4, "rawseqs": rawseqs,
                            "lowermode": "full" if (ck.thorough and rot == 0) else "sparse", "rot": rot}])
     res = ck.tlc_or_infra("WalletSend_Gen", "gen/WalletSend_Gen.cfg", files={"params.ndjson": pp, "codes.ndjson": codes},
                           workers=4, timeout=1200, name="gen_rot%d" % rot, heap_gb=4)
@@ -102,7 +102,18 @@ def check_generator(vs):
     need += [("st", s, "", False) for s in ("none", "uninit", "frozen", "err")] + [("st", "active", n, False) for n in ("0", "1", "7", "4294967295")]
     need += [("st", "active", "7", True), ("send", "ok"), ("send", "err"), ("entry", "SendV2", True), ("entry", "SendV2", False),
              ("entry", "Send", False), ("entry", "RawSendV2", True), ("entry", "RawSendV2", False), ("entry", "RawSend", False)]
+    script = lambda v: "".join("E" if p["r"] == "err" else "=" if p["v"] == v["same"] else "<" if int(p["v"]) < int(v["same"]) else "+" for p in v["polls"])
+    for v in vs:
+        if v["confirm"] and v["exp"]["advanced"] and v["exp"]["res"] == "ok":
+            seen[("script", script(v))] += 1
+        if v["acct"]["st"] == "active" and v["entry"] == "Send":
+            seen[("active-key", v["ver"], v["seed"][65:] or "real")] += 1
+    need += [("script", x) for x in ("E+", "=EE+", "EEEEE+", "=+")]
+    need += [("active-key", x, pat * 32) for x in SEND_VERSIONS for pat in ("ff", "00", "80", "7f")]
+    need += [("active-key", x, "00" * 26 + "80" + "00" * 5) for x in SEND_VERSIONS]
     miss = [n for n in need if not seen[n]]
+    if any(seen[("active-key", x, "real")] < 14 * 5 for x in SEND_VERSIONS):
+        raise Infra("generator: fewer than 14 seeded keys per version for active accounts")
     if miss:
         raise Infra("generator does not cover: %s" % miss)
     # the required outcome of a confirmed send: success iff a scripted poll advanced
@@ -179,9 +190,9 @@ def window_ms(ck):
     return int(base * min(3.0, max(1.0, load / 1.5)))
 
 
-def one_rotation(ck, codes, seeds, wcs, rot, W, first_vec, out):
+def one_rotation(ck, codes, seeds, wcs, rot, W, first_vec, out, nrot):
     """Generate, replay and judge the histories of one key / workchain assignment. Returns (vectors, accepted runs, rejected (run, why))."""
-    vs, res = gen_vectors(ck, codes, seeds, wcs, rot)
+    vs, res = gen_vectors(ck, codes, seeds, wcs, rot, nrot)
     check_generator(vs)
     for i, v in enumerate(vs):
         v["W"], v["rot"], v["vec"] = W, rot, first_vec + i
@@ -202,15 +213,29 @@ def one_rotation(ck, codes, seeds, wcs, rot, W, first_vec, out):
     # Time-dependent judgements are made twice before they count (DESIGN section 6). Replayed again with a 3x window, a few at a time:
     #  - accepted behaviours whose outcome is not the history's (the scripted poll was not reached before the deadline under load)
     #  - runs rejected only for a clock reading (an error slightly early / very late on an oversubscribed machine)
-    CLOCK = ("Return:long-after-deadline", "Return:error-before-deadline")
+    def clock_suspect(r_, why):
+        """rejected only for a clock reading that scheduling noise can explain (never: an error far from the deadline)"""
+        last = r_["steps"][-1]
+        if last["k"] == "Timeout" or why == "Return:long-after-deadline":        # (Timeout: the harness gave up waiting)
+            return True
+        return why == "Return:error-before-deadline" and last.get("us", 0) >= r_["W"] * 600     # within 40% of the deadline
+    firm = lambda: [x for x in rejected if not clock_suspect(*x)]
     for attempt, (mult, par) in enumerate(((3, 48), (6, 16), (12, 8))):
         again = [r_ for r_ in accepted if outcome_differs(r_)]
-        suspects = [r_ for r_, why in rejected if why in CLOCK or r_["steps"][-1]["k"] == "Timeout"]     # (Timeout: the harness gave up waiting)
+        suspects = [r_ for r_, why in rejected if clock_suspect(r_, why)]
         if not again and not suspects:
             break
-        out["rerun_for_timing"] = out.get("rerun_for_timing", 0) + len(again) + len(suspects)
         if len(again) + len(suspects) > len(vs) // 8:
+            # not noise any more. Misbehaviour of the code must not be masked by this guard: if there are firm rejections they
+            # are reported (the clock-dependent ones stay rejected and pass through the reproduction guard of their key);
+            # only with nothing firm to report is this an infrastructure failure
+            if firm() or suspects:
+                ck.notes.append("%d runs with clock-dependent judgements were not replayed again (too many to be scheduling noise)" % (len(again) + len(suspects)))
+                accepted = [r_ for r_ in accepted if not outcome_differs(r_)]
+                ck.traces_ok -= len(again)
+                break
             raise Infra("%d runs depend on clock readings that differ from what their history requires (machine too loaded?)" % (len(again) + len(suspects)))
+        out["rerun_for_timing"] = out.get("rerun_for_timing", 0) + len(again) + len(suspects)
         gone = {r_["vec"] for r_ in again + suspects}
         ck.traces_ok -= len(again)
         accepted = [r_ for r_ in accepted if r_["vec"] not in gone]
@@ -226,7 +251,7 @@ def one_rotation(ck, codes, seeds, wcs, rot, W, first_vec, out):
                 accepted.append(r_)
                 ck.traces_ok += 1
     for r_ in accepted:
-        if outcome_differs(r_):
+        if outcome_differs(r_) and not rejected:
             raise Infra("vector %d: the run is a legal behaviour but four times not the outcome the history requires: %s" % (r_["vec"], json.dumps(slim_run(r_))[:1500]))
     out.setdefault("runs", runs)          # rotation 0, for the canaries
     return vs, accepted, rejected
@@ -235,12 +260,18 @@ def one_rotation(ck, codes, seeds, wcs, rot, W, first_vec, out):
 def send_part(ck, codes, out):
     rots = [0, 1, 2] if ck.thorough else [0]
     W = window_ms(ck)
-    seeds = ["%064x" % ck.rng.getrandbits(256) for _ in range(4 if ck.thorough else 2)]
+    # keys: nrot seeded ones rotate over (version, entry); entry Send runs every account state with all of them: 12 more seeded
+    # keys and private-key values whose public half is a pattern (every byte's top bit in both values: the stored data of an
+    # active account must decode whatever the key bytes are)
+    nrot = 4 if ck.thorough else 2
+    seeds = ["%064x" % ck.rng.getrandbits(256) for _ in range(nrot + 12)]
+    seeds += ["%064x:%s" % (ck.rng.getrandbits(256), pat * 32) for pat in ("ff", "00", "80", "7f")]
+    seeds += ["%064x:%s" % (ck.rng.getrandbits(256), "00" * i + "80" + "00" * (31 - i)) for i in ((26, 0, 31) if not ck.thorough else range(32))]
     wcs = [0, -1, 1, -128, 127] if ck.thorough else [0, -1]
     nvec = nacc = nrej = 0
     by_key = collections.OrderedDict()        # key -> [count, vector, run, why]
     for rot in rots:
-        vs, accepted, rejected = one_rotation(ck, codes, seeds, wcs, rot, W, nvec, out)
+        vs, accepted, rejected = one_rotation(ck, codes, seeds, wcs, rot, W, nvec, out, nrot)
         nvec, nacc, nrej = nvec + len(vs), nacc + len(accepted), nrej + len(rejected)
         for r_, why in sorted(rejected, key=lambda x: x[0]["vec"]):
             ent = by_key.setdefault(run_key(r_, why), [0, vs[r_["vec"] - vs[0]["vec"]], r_, why])
